@@ -4,6 +4,8 @@ package main
 // context's deadline.
 
 import (
+	"strings"
+	"math/rand"
 	"context"
 	"fmt"
 	"net"
@@ -26,7 +28,9 @@ type udpBMC struct {
 	sim   *simBMC
 	mu    sync.Mutex
 	fault string // "" = behave
+	after int    // datagrams still to be answered properly before the fault sets in
 	T     time.Duration
+	dev   *c14Device
 	done  chan struct{}
 }
 
@@ -36,8 +40,12 @@ func newUDPBMC() (*udpBMC, error) {
 		return nil, err
 	}
 	u := &udpBMC{conn: c, sim: newSimBMC([]byte(fixedPass), nil), done: make(chan struct{})}
+	gg := &genCtx{rng: rand.New(rand.NewSource(7)), tier: "quick", stat: map[string]int{}}
+	u.dev = &c14Device{recs: c14Repo(gg, 3, true, 100), maxReserves: 1 << 30, cancel: func() {}}
 	u.sim.dispatcher = func(netfn, cmd byte, data []byte) []byte {
 		switch {
+		case netfn == 0x0a:
+			return u.dev.dispatch(netfn, cmd, data)
 		case netfn == 0x06 && cmd == 0x01:
 			return ipmiRsp(netfn, cmd, 0, []byte{0x20, 0x81, 0x02, 0x15, 0x02, 0xbf, 0x57, 0x01, 0x00, 0x34, 0x12})
 		case netfn == 0x06 && cmd == 0x3c:
@@ -51,8 +59,14 @@ func newUDPBMC() (*udpBMC, error) {
 	return u, nil
 }
 
+// arm: "fault" or "fault@k" (the BMC answers k more datagrams properly, then the fault sets in)
 func (u *udpBMC) arm(fault string, T time.Duration) {
 	u.mu.Lock()
+	u.after = 0
+	if i := strings.Index(fault, "@"); i >= 0 {
+		u.after = atoi(fault[i+1:])
+		fault = fault[:i]
+	}
 	u.fault, u.T = fault, T
 	u.mu.Unlock()
 }
@@ -68,6 +82,10 @@ func (u *udpBMC) serve() {
 		p := append([]byte(nil), buf[:n]...)
 		u.mu.Lock()
 		fault, T := u.fault, u.T
+		if u.after > 0 {
+			u.after--
+			fault = ""
+		}
 		var r []byte
 		delay := time.Duration(0)
 		switch fault {
@@ -136,7 +154,24 @@ func doTime(a []string) (string, string) {
 		return "no-socket", ""
 	}
 	defer u.close()
-	t, err := bmc.DialV2(u.conn.LocalAddr().String(), bmc.WithTimeout(T))
+	// the per-attempt timeout reaches the connection through WithTimeout or, later, through SetTimeout; the
+	// version-agnostic Dial must give the same connection
+	var t *bmc.V2SessionlessTransport
+	switch atoi(a[1]) % 3 {
+	case 0:
+		t, err = bmc.DialV2(u.conn.LocalAddr().String(), bmc.WithTimeout(T))
+	case 1:
+		t, err = bmc.DialV2(u.conn.LocalAddr().String(), bmc.WithTimeout(7*T+time.Second))
+		if err == nil {
+			t.SetTimeout(T)
+		}
+	default:
+		var st bmc.SessionlessTransport
+		st, err = bmc.Dial(context.Background(), u.conn.LocalAddr().String(), bmc.WithTimeout(T))
+		if err == nil {
+			t = st.(*bmc.V2SessionlessTransport)
+		}
+	}
 	if err != nil {
 		return "dial-failed", ""
 	}
@@ -182,7 +217,7 @@ func doTime(a []string) (string, string) {
 	if late {
 		return out, fmt.Sprintf("call returned %v after its deadline (allowance %v)", elapsed-D, timeAllowance)
 	}
-	if res == "ok" && fault != "none" {
+	if res == "ok" && fault != "none" && !strings.Contains(fault, "@") {
 		return out, "call reported success although no valid response can have arrived"
 	}
 	return out, ""
@@ -204,10 +239,20 @@ func genTime(g *genCtx) {
 			for _, r := range ratios {
 				ops = append(ops, Op{Class: 'P', NonTrivial: r[1] > 0, Kind: "time", Args: []string{c, itoa(r[0]), itoa(r[1]), f}})
 			}
+			// the fault at every later step of the multi-step calls (handshake: 3 exchanges; SDR retrieval: repository
+			// info, reservation, header / body reads, final repository info)
+			steps := map[string][]int{"hs": {1, 2}, "sdr": {1, 2, 3, 4, 6, 8}}[c]
+			for _, k := range steps {
+				if f == "trunc" && c != "hs" {
+					continue
+				}
+				for _, r := range [][2]int{{100, 300}, {60, 150}} {
+					ops = append(ops, Op{Class: 'P', NonTrivial: true, Kind: "time", Args: []string{c, itoa(r[0]), itoa(r[1]), fmt.Sprintf("%s@%d", f, k)}})
+				}
+			}
 		}
-		if c != "sdr" { // control: a well-behaved BMC (the reference BMC here holds no SDR repository)
-			ops = append(ops, Op{Class: 'P', NonTrivial: false, Kind: "time", Args: []string{c, "200", "2000", "none"}})
-		}
+		// control: a well-behaved BMC
+		ops = append(ops, Op{Class: 'P', NonTrivial: false, Kind: "time", Args: []string{c, "200", "2000", "none"}})
 	}
 	// run them concurrently (each has its own sockets), then emit in order from the cache
 	var wg sync.WaitGroup
